@@ -425,7 +425,37 @@ impl Monitor for C08 {
                             let lim128 = model::bu(u128::MAX) * &d;
                             let l_wrap = &lim128 / &n + BigUint::from(1u8);
                             let l_wrap2 = &l_wrap + (&d / &n) * BigUint::from(1000u32) + BigUint::from(7u8);
-                            for (which, lbig) in [("over", l_over.clone()), ("fit", &l_over - BigUint::from(1u8)), ("wrap128", l_wrap), ("wrap128+", l_wrap2)] {
+                            let mut cands: Vec<(&str, BigUint)> = vec![("over", l_over.clone()), ("fit", &l_over - BigUint::from(1u8)), ("wrap128", l_wrap), ("wrap128+", l_wrap2)];
+                            if side_b {
+                                // liquidity whose token-B cost has a chosen fractional part (in 64ths of a bit: only the top bit,
+                                // only the lowest bit, all ones, the middle bit, none): L * n = pattern (mod 2^64)
+                                if let Some(n64) = model::to_u128(&(&n % model::two64())) {
+                                    let n64 = n64 as u64;
+                                    if n64 != 0 {
+                                        let g = n64.trailing_zeros();
+                                        let odd = n64 >> g;
+                                        // inverse of an odd number modulo 2^64 (Newton)
+                                        let mut inv: u64 = odd;
+                                        for _ in 0..6 {
+                                            inv = inv.wrapping_mul(2u64.wrapping_sub(odd.wrapping_mul(inv)));
+                                        }
+                                        for (label, pat) in [("frac_top_bit", 1u64 << 63), ("frac_one", 1u64), ("frac_all_ones", u64::MAX), ("frac_mid_bit", 1u64 << 32), ("frac_zero", 0u64)] {
+                                            if g > 0 && pat & ((1u64 << g) - 1) != 0 {
+                                                continue;
+                                            }
+                                            let modulus_bits = 64 - g;
+                                            let mut l0 = (pat >> g).wrapping_mul(inv);
+                                            if modulus_bits < 64 {
+                                                l0 &= (1u64 << modulus_bits) - 1;
+                                            }
+                                            let step = if modulus_bits < 64 { BigUint::from(1u128 << modulus_bits) } else { model::two64() };
+                                            let k = BigUint::from(ev.salt % 5);
+                                            cands.push((label, BigUint::from(l0) + step * k));
+                                        }
+                                    }
+                                }
+                            }
+                            for (which, lbig) in cands {
                                 let Some(l) = model::to_u128(&lbig) else { continue };
                                 if l == 0 { continue }
                                 let mut d2 = v.ix.data.clone();
@@ -455,6 +485,9 @@ impl Monitor for C08 {
                                 }
                                 cov.eval(format!("u64_boundary|{}|side_b={}|{}|ok={}", name, side_b, which, r.ok));
                                 cov.probe("u64_boundary_forks");
+                                if which.starts_with("frac") {
+                                    cov.probe(if r.ok { "fraction_pattern_deposit_landed" } else { "fraction_pattern_deposit_refused" });
+                                }
                                 let (xa, xb) = model::liquidity_amounts(l, t, p, lo, hi, true);
                                 if r.ok {
                                     let va = delta(&start, &fork, &x.pre_pool.vault_a);
